@@ -59,6 +59,8 @@ def _eval_requirement(body, ap, req):
     for g in ap['gates']:
         if not gate_is_comparison(g):
             continue
+        if not g.dom and not req.get('any_path'):
+            continue      # a check on only some of the paths to the accept site does not gate it
         if callee_any and not (g.kind == 'call' and any(c in (g.what or '') for c in callee_any)):
             if not (ops_any and g.kind == 'cmp' and g.what in ops_any):
                 continue
@@ -90,7 +92,7 @@ def path_is_exempt(body, ap, exempt):
         return False
     cover = [parse_req(body, s) for s in exempt.get('cover', [])]
     for g in ap['gates']:
-        if g.kind == 'call' and any(c in (g.what or '') for c in exempt['gate_callee']):
+        if g.kind == 'call' and g.dom and any(c in (g.what or '') for c in exempt['gate_callee']):
             if all(has(g.all_atoms(), r) for r in cover) and g.truth == exempt.get('truth', True):
                 return True
     return False
